@@ -49,6 +49,10 @@ def boxcar_filter(time_series, lb=0, ub=0.5, n_iterations=2):
     #over 2-d inputs:
     if len(time_series.shape) == 1:
         time_series = np.array([time_series])
+    else:
+        # the rows are overwritten below: work on a copy, not on the caller's
+        # array
+        time_series = np.array(time_series)
     for i in range(time_series.shape[0]):
         if ub:
             # Start by applying a low-pass to the signal.  Pad the signal on
